@@ -110,6 +110,13 @@ def gen_cases(rng, tier):
             evs = pre + post
             horizon = t0 + TO + 40000
             cases.append(["late%d" % n, "c06", "ni", "0", str(code), str(t0), ",".join("%d:%s" % e for e in evs), str(horizon), "", ""]); n += 1
+    # over a reliable transport a second copy of a request may still arrive (a peer that re-sends after a reconnect, a duplicating proxy):
+    # waiting when the application answers or coming later, it is not answered again - the response is sent once
+    for t0 in (2, 2000, 12000):
+        for code in (200, 404):
+            for evs in ([(1, "R")], [(1, "R"), (t0 // 2 + 1, "R")], [(t0 + 700, "R")], [(1, "R"), (t0 + 5, "R")]):
+                evs = sorted(set((max(1, t), k) for (t, k) in evs if t != t0))
+                cases.append(["laterel%d" % n, "c06", "ni", "1", str(code), str(t0), ",".join("%d:%s" % e for e in evs), str(t0 + TO + 40000), "", ""]); n += 1
     # the same for an INVITE that is answered late (timer A of the client: 0.5, 1.5, 3.5, 7.5, ...): a provisional response given meanwhile
     # goes out once per call however many copies of the INVITE are waiting, and the final answers each waiting copy once
     A_SCHED = [500, 1500, 3500, 7500, 15500]
